@@ -10,6 +10,7 @@
   which is not a trap.
 -/
 import Grenad.Proofs.SorterSortedRun
+import Grenad.Proofs.EntriesBytesProofs
 
 namespace Grenad.Props.C17
 
@@ -203,5 +204,217 @@ example : ∃ s sp mg, Reach mfC cfgC LenOk s sp mg ∧ s.entries.bufLen = 1024 
     rw [h] at v
     simp only [Except.toOption, Option.map_some, Option.some.injEq, Prod.mk.injEq] at v
     exact ⟨s, sp, mg, r, v⟩
+
+/-! ## Byte level: the allocation as ONE byte string used from both ends
+
+  `EntriesB` (Model/EntriesBytes.lean) mirrors `Entries` of src/sorter.rs literally: entry bytes
+  written at the back, 16-byte `EntryBound` records (`key_start` counted from the END of the
+  buffer, little endian) at the front, every slice access guarded.  `Rep b e view` =
+  "`b` and the numeric `e` carry the same numbers (`Abs`), `e` satisfies `Entries.Inv`, and
+  `b.buf = bounds ++ gap ++ entry bytes` with every bound inside the entry bytes and denoting the
+  corresponding element of `view`", where `view` is a permutation of `e.items` (`e.items` itself
+  until the bounds are sorted).  `ResRel R x y` = "`x` and `y` fail with the same error or succeed
+  with `R`-related values".  `g` is the arbitrary content of fresh allocations. -/
+
+open Grenad.EntriesB (Rep Abs ResRel)
+
+/-- **C17 (bytes), what `Rep` contains**: the abstraction relation of the task (same three
+    numbers, same length, live), the numeric invariant, the non-overlap of the two regions, and
+    `view` a permutation of the ghost items. -/
+theorem C17_bytes_rep {b : EntriesB} {e : Entries} {view : List Entry} (h : Rep b e view) :
+    (b.entriesLen = e.entriesLen ∧ b.boundsCount = e.boundsCount ∧ e.bufLen = b.buf.length ∧
+      e.live = true) ∧ Inv e ∧ 16 * b.boundsCount + b.entriesLen ≤ b.buf.length ∧
+    b.buf.length < 2 ^ 63 ∧ view.Perm e.items :=
+  ⟨⟨h.abs.elen, h.abs.cnt, h.abs.len, h.abs.live⟩, h.inv, h.disjoint, h.small, h.perm⟩
+
+/-- **C17 (bytes), refinement: `with_capacity`.** -/
+theorem C17_bytes_refines_withCapacity (g : Nat → Nat → UInt8) (cap : Nat) :
+    ResRel (fun rb re => rb.2 = re.2 ∧ Rep rb.1 re.1 [] ∧ re.1.items = [])
+      (EntriesB.withCapacity g cap) (Entries.withCapacity cap) :=
+  EntriesB.withCapacity_sim g cap
+
+/-- **C17 (bytes), refinement: `insert`** — the simulation.  For EVERY key, value, fuel and
+    fresh-memory content: the byte-level doubling loop traps exactly when the numeric one does, with
+    the same trap; otherwise both emit the same allocation events, and the results are again
+    related, the view gaining `(k, v)` at its end. -/
+theorem C17_bytes_refines (g : Nat → Nat → UInt8) (k v : Bytes) (fuel : Nat)
+    {b : EntriesB} {e : Entries} {view : List Entry} (h : Rep b e view) :
+    ResRel (fun rb re => rb.2 = re.2 ∧ Rep rb.1 re.1 (view ++ [(k, v)]))
+      (EntriesB.insert g b k v fuel) (Entries.insert e k v fuel) :=
+  EntriesB.insert_sim g k v fuel h
+
+/-- The same, unfolded: success transfers in both directions with the same events … -/
+theorem C17_bytes_refines_ok (g : Nat → Nat → UInt8) (k v : Bytes) (fuel : Nat)
+    {b : EntriesB} {e : Entries} {view : List Entry} (h : Rep b e view) :
+    (∀ e' ev, Entries.insert e k v fuel = .ok (e', ev) →
+      ∃ b', EntriesB.insert g b k v fuel = .ok (b', ev) ∧ Rep b' e' (view ++ [(k, v)])) ∧
+    (∀ b' ev, EntriesB.insert g b k v fuel = .ok (b', ev) →
+      ∃ e', Entries.insert e k v fuel = .ok (e', ev) ∧ Rep b' e' (view ++ [(k, v)])) := by
+  have s := EntriesB.insert_sim g k v fuel h
+  constructor
+  · intro e' ev he
+    obtain ⟨⟨b', evb⟩, hb, h1, h2⟩ := s.ok_right he
+    simp only at h1 h2
+    subst h1
+    exact ⟨b', hb, h2⟩
+  · intro b' ev hb
+    obtain ⟨⟨e', eve⟩, he, h1, h2⟩ := s.ok_left hb
+    simp only at h1 h2
+    subst h1
+    exact ⟨e', he, h2⟩
+
+/-- … and so does every trap. -/
+theorem C17_bytes_refines_trap (g : Nat → Nat → UInt8) (k v : Bytes) (fuel : Nat)
+    {b : EntriesB} {e : Entries} {view : List Entry} (h : Rep b e view) (t : Trap) :
+    EntriesB.insert g b k v fuel = .error t ↔ Entries.insert e k v fuel = .error t :=
+  (EntriesB.insert_sim g k v fuel h).error_iff t
+
+/-- **C17 (bytes), refinement: `clear`.** -/
+theorem C17_bytes_refines_clear {b : EntriesB} {e : Entries} {view : List Entry}
+    (h : Rep b e view) : Rep b.clear e.clear [] ∧ e.clear.items = [] :=
+  ⟨h.clear, rfl⟩
+
+/-- **C17 (bytes), refinement: the whole sorter.**  `SorterB` (the sorter over the byte-level
+    buffer: `write_chunk` = sort the bound records, iterate the bytes, merge, clear) and `Sorter`
+    return the same error, or states with the same chunks, events and merge calls, whose buffers are
+    related by `Rep` (bounds in insertion order) as long as the allocation is alive. -/
+theorem C17_bytes_refines_program (mf : MergeFn) (g : Nat → Nat → UInt8) (cfg : SCfg)
+    (l : List Entry) (fin : Bool) :
+    ResRel (fun sb s => SFin sb s ∧ (fin = false → SRep sb s))
+      (SorterB.program mf g cfg l fin) (program mf cfg l fin) :=
+  SorterB.program_sim mf g cfg l fin
+
+/-- **C17 (bytes), `iter`.**  Iterating the byte buffer decodes every bound as it was encoded and
+    slices exactly the bytes of the entry it denotes: the result is the view. -/
+theorem C17_bytes_iter {b : EntriesB} {e : Entries} {view : List Entry} (h : Rep b e view) :
+    EntriesB.iter b = .ok view :=
+  h.iter
+
+/-- **C17 (bytes), `iter` after any run of the buffer**: `with_capacity(cap)` and any sequence of
+    inserts (reallocations included, whatever the fresh memory contains) — iterating returns
+    exactly the inserted pairs, in insertion order, unaltered; the two regions do not overlap. -/
+theorem C17_bytes_iter_run {g : Nat → Nat → UInt8} {cap : Nat} {l : List Entry} {b : EntriesB}
+    (h : EntriesB.run g cap l = .ok b) :
+    EntriesB.iter b = .ok l ∧ 16 * b.boundsCount + b.entriesLen ≤ b.buf.length :=
+  EntriesB.run_iter h
+
+/-- The run of the byte-level buffer succeeds exactly when the numeric run does. -/
+theorem C17_bytes_run_refines (g : Nat → Nat → UInt8) (cap : Nat) (l : List Entry) :
+    ResRel (fun b e => Rep b e e.items ∧ e.items = l) (EntriesB.run g cap l) (Entries.run cap l) :=
+  EntriesB.run_sim g cap l
+
+/-- **C17 (bytes), `iter` in any sorter run**: in the state reached by `new` and any inserts
+    (spills and chunk merges included) the byte buffer iterates to the pending entries of the
+    numeric sorter, in insertion order. -/
+theorem C17_bytes_iter_program {mf : MergeFn} {g : Nat → Nat → UInt8} {cfg : SCfg}
+    {l : List Entry} {sb : SorterB} (h : SorterB.program mf g cfg l false = .ok sb) :
+    ∃ s, program mf cfg l false = .ok s ∧ sb.chunks = s.chunks ∧
+      EntriesB.iter sb.entries = .ok s.entries.items ∧
+      16 * sb.entries.boundsCount + sb.entries.entriesLen ≤ sb.entries.buf.length := by
+  obtain ⟨s, hs, _, hr⟩ := (SorterB.program_sim mf g cfg l false).ok_left h
+  have hr := hr rfl
+  exact ⟨s, hs, hr.chunks, hr.rep.iter, hr.rep.disjoint⟩
+
+/-- **C17 (bytes), no out-of-range access in any run.**  Under the hypotheses of `C17_no_trap`
+    the byte-level sorter never traps: no slice of the allocation (`readAt` / `writeAt` /
+    `split_at`) is out of range, no `usize` subtraction underflows, in `new`, in any `insert`
+    (with its reallocations, spills, sorts, iterations) or in the final spill. -/
+theorem C17_bytes_in_bounds (mf : MergeFn) (g : Nat → Nat → UInt8) (cfg : SCfg) (l : List Entry)
+    (fin : Bool) (h0 : 0 < cap0 cfg) (h1 : cap0 cfg + 15 < 2 ^ 63)
+    (hT : cfg.allowRealloc = true → cfg.budget ≤ 2 ^ 62 - 2 ^ 34)
+    (hl : ∀ kv ∈ l, kv.1.length ≤ u32Max ∧ kv.2.length ≤ u32Max) (t : Trap) :
+    SorterB.program mf g cfg l fin ≠ .error (.trap t) := by
+  intro h
+  exact C17_no_trap mf cfg l fin h0 h1 hT hl t
+    (((SorterB.program_sim mf g cfg l fin).error_iff _).1 h)
+
+/-- **C17 (bytes), no out-of-range access, one call**: from any represented state an insert with
+    admissible lengths that fits, or whose total stays below `2^62`, succeeds on the bytes. -/
+theorem C17_bytes_in_bounds_insert (g : Nat → Nat → UInt8) {b : EntriesB} {e : Entries}
+    {view : List Entry} (h : Rep b e view) (k v : Bytes)
+    (hk : k.length ≤ u32Max) (hv : v.length ≤ u32Max)
+    (hsz : e.used + entrySize k v ≤ e.bufLen ∨ e.used + entrySize k v ≤ 2 ^ 62) :
+    ∃ b' ev, EntriesB.insert g b k v 64 = .ok (b', ev) ∧
+      EntriesB.iter b' = .ok (view ++ [(k, v)]) ∧
+      16 * b'.boundsCount + b'.entriesLen ≤ b'.buf.length := by
+  obtain ⟨e', ev, he⟩ := C17_fuel h.inv k v hk hv hsz
+  obtain ⟨b', hb, hr⟩ := (C17_bytes_refines_ok g k v 64 h).1 e' ev he
+  exact ⟨b', ev, hb, hr.iter, hr.disjoint⟩
+
+/-- **C17 (bytes) / C07, `sort_by_key(Stable)` then `iter`.**  Sorting permutes the bound records
+    only (in place, inside the bounds area); afterwards the buffer iterates to the model's
+    `Sorter.sortStable` of the previous view. -/
+theorem C17_bytes_sorted_iter {b : EntriesB} {e : Entries} {view : List Entry} (h : Rep b e view) :
+    ∃ b', EntriesB.sortBounds b = .ok b' ∧ Rep b' e (sortStable view) ∧
+      EntriesB.iter b' = .ok (sortStable view) := by
+  obtain ⟨b', hs, hr⟩ := h.sortStable
+  exact ⟨b', hs, hr, hr.iter⟩
+
+/-- After any run of the buffer, sorting then iterating yields `sortStable` of the inserted list:
+    what `write_chunk` hands to the merge of equal keys (C07). -/
+theorem C17_bytes_sorted_iter_run {g : Nat → Nat → UInt8} {cap : Nat} {l : List Entry}
+    {b : EntriesB} (h : EntriesB.run g cap l = .ok b) :
+    ∃ b', EntriesB.sortBounds b = .ok b' ∧ EntriesB.iter b' = .ok (sortStable l) := by
+  obtain ⟨e, _, hr, hi⟩ := (EntriesB.run_sim g cap l).ok_left h
+  rw [hi] at hr
+  obtain ⟨b', hs, _, hit⟩ := C17_bytes_sorted_iter hr
+  exact ⟨b', hs, hit⟩
+
+/-- **Any permuting sort** (`sort_unstable_by_key`, the parallel variants): whatever permutation
+    `sort` applies to the keyed bound records, the buffer then iterates to a permutation of the
+    previous view, and it is ordered by key in whatever way `sort` orders its output. -/
+theorem C17_bytes_permuted_iter {b : EntriesB} {e : Entries} {view : List Entry}
+    (h : Rep b e view) (sort : List (Bytes × EntryBound) → List (Bytes × EntryBound))
+    (hperm : ∀ l, (sort l).Perm l) :
+    ∃ b' view', EntriesB.sortBoundsWith sort b = .ok b' ∧ Rep b' e view' ∧
+      EntriesB.iter b' = .ok view' ∧ view'.Perm view ∧
+      ∀ R : Bytes → Bytes → Prop, (∀ l, (sort l).Pairwise (fun p q => R p.1 q.1)) →
+        view'.Pairwise (fun x y => R x.1 y.1) := by
+  obtain ⟨b', view', hs, hr, hp, hR⟩ := h.sortWith sort hperm
+  exact ⟨b', view', hs, hr, hr.iter, hp, hR⟩
+
+/-- The round trip of one bound record (`usize`, `u32`, `u32`, little endian, 16 bytes). -/
+theorem C17_bytes_bound_roundtrip {a b c : Nat} (ha : a < 2 ^ 64) (hb : b < 2 ^ 32)
+    (hc : c < 2 ^ 32) :
+    (encodeBound a b c).length = 16 ∧ decodeBound (encodeBound a b c) = ⟨a, b, c⟩ :=
+  ⟨EntriesB.encodeBound_length a b c, EntriesB.decodeBound_encodeBound ha hb hc⟩
+
+/-! ### Concrete instance (bytes) -/
+
+/-- Fresh memory is not zeroed: byte `i` of an allocation of `n` bytes is `n + i` (mod 256). -/
+def g0 : Nat → Nat → UInt8 := fun n i => (n + i).toUInt8
+
+/-- Five entries (one empty, one of 101 bytes): 21, 38, 19, 16 and 117 bytes with their bounds. -/
+def kvsB : List Entry :=
+  [([3, 1], [10, 11, 12]), ([2], List.replicate 21 9), ([1, 1, 1], []), ([], []),
+   ([0], List.replicate 100 7)]
+
+set_option maxRecDepth 100000 in
+/-- Capacity 64; the third insert doubles the buffer to 128, the fifth to 256; iterating the
+    bytes returns the five entries. -/
+example : (EntriesB.run g0 64 kvsB).toOption.map
+      (fun b => (b.buf.length, b.entriesLen, b.boundsCount)) = some (256, 131, 5) ∧
+    (EntriesB.run g0 64 kvsB).toOption.bind (fun b => (EntriesB.iter b).toOption) = some kvsB := by
+  decide
+
+set_option maxRecDepth 100000 in
+/-- The first bytes of that buffer are the bound of `([3, 1], [10, 11, 12])`:
+    `key_start = 5`, `key_length = 2`, `data_length = 3`, little endian. -/
+example : (EntriesB.run g0 64 kvsB).toOption.map (fun b => b.buf.take 16) =
+    some [5, 0, 0, 0, 0, 0, 0, 0, 2, 0, 0, 0, 3, 0, 0, 0] := by
+  decide
+
+set_option maxRecDepth 100000 in
+/-- `Rep` is satisfiable by that non-trivial state (the hypothesis of `C17_bytes_refines`,
+    `C17_bytes_iter`, `C17_bytes_sorted_iter`, …). -/
+example : ∃ b e, Rep b e e.items ∧ e.items = kvsB ∧ b.buf.length = 256 := by
+  have v : (EntriesB.run g0 64 kvsB).toOption.map (fun b => b.buf.length) = some 256 := by
+    decide +kernel
+  cases h : EntriesB.run g0 64 kvsB with
+  | error t => rw [h] at v; cases v
+  | ok b =>
+    obtain ⟨e, _, hr, hi⟩ := (EntriesB.run_sim g0 64 kvsB).ok_left h
+    rw [h] at v
+    exact ⟨b, e, hr, hi, Option.some.inj v⟩
 
 end Grenad.Props.C17
